@@ -215,11 +215,26 @@ def relations(chk, info, case, df, tmpdir):
     when they apply (smallDisp, no tie) and its invariants InvWrapped / InvLog state them on the model."""
     c, variant = case["c"], case["variant"]
     tie = any(r["mtie"] for r in case["rows"])
+    # a displacement within 1e-6 of the slow/fast cut-off may be decided either way once the wrapped run has
+    # gone through the (inexact) inverse cell matrix: Q and chi4 of such rows are not compared (DESIGN 3.3)
+    qtie_rows = [k for k, r in enumerate(case["rows"]) if r["qtie"]]
+
+    def comparable(a, b):
+        a, b = np.array(a, dtype=float), np.array(b, dtype=float)
+        for k in qtie_rows:
+            if k < len(a) and k < len(b):
+                a[k, 2:4] = b[k, 2:4] = 0.0
+        # alpha2 = c <r^4>/<r^2>^2 - 1 is undefined at MSD = 0 (0/0 in one run, rounding noise in the other)
+        if a.shape == b.shape and a.ndim == 2:
+            still = (np.abs(a[:, 4]) < 1e-12) | (np.abs(b[:, 4]) < 1e-12)
+            a[still, 5] = b[still, 5] = 0.0
+        return a, b
     try:
         if variant == "lin" and c["mode"] == "x" and case["smallDisp"] and not tie:
             cu = dict(c, mode="xu")
             du = call_relaxation(cu, case["tsq"], case["dt"], "lin", tmpdir)
-            if not np.allclose(du.values, df.values, rtol=1e-9, atol=1e-9, equal_nan=True):
+            ua, wa = comparable(du.values, df.values)
+            if ua.shape != wa.shape or not np.allclose(ua, wa, rtol=1e-9, atol=1e-9, equal_nan=True):
                 chk.violation("WrappedEqualsUnwrapped", {**info, "wrapped": df.values.tolist(), "unwrapped": du.values.tolist()})
                 return False
             chk.extra["relation_wrapped_equals_unwrapped"] = chk.extra.get("relation_wrapped_equals_unwrapped", 0) + 1
@@ -227,6 +242,10 @@ def relations(chk, info, case, df, tmpdir):
             dl = call_relaxation(c, case["tsq"], case["dt"], "lin", tmpdir)
             a, b = dl.values[-1].copy(), df.values[-1].copy()
             a[3] = b[3] = 0.0            # chi4 of a single origin is 0 in both, up to rounding of <Q^2> - <Q>^2
+            if abs(a[4]) < 1e-12 or abs(b[4]) < 1e-12:
+                a[5] = b[5] = 0.0        # alpha2 undefined at MSD = 0
+            if case["rows"] and case["rows"][-1]["qtie"]:
+                a[2] = b[2] = 0.0        # cut-off tie: not decided
             if not np.allclose(a, b, rtol=1e-9, atol=1e-9, equal_nan=True):
                 chk.violation("LogIsOriginZeroRestriction", {**info, "linear_last_row": dl.values[-1].tolist(),
                                                               "log_last_row": df.values[-1].tolist()})
